@@ -311,6 +311,10 @@ StringDictionaryHTFC::StringDictionaryHTFC(IteratorDictString *it,
 
   table = builder->getTable();
   delete builder;
+
+  // The coder also decodes from now on: it needs the decoding table
+  delete coder;
+  coder = new StatCoder(table, codewords);
 }
 
 unsigned long StringDictionaryHTFC::locate(uchar *str, uint strLen) {
